@@ -135,7 +135,9 @@ PROPS = {
         "theorems": ["Arca.Props.C01.no_blocking_send", "Arca.Props.C01.at_most_one_output", "Arca.Props.C01.no_more_outputs_once",
                      "Arca.Props.C01.error_buffer_bounded", "Arca.Props.C01.error_capacity_sufficient", "Arca.Props.C01.dead_only_by_panic",
                      "Arca.Props.C01.completed_step_settles_all_its_stages", "Arca.Props.C01.completed_steps_stay_settled",
-                     "Arca.Props.C01.all_steps_completed_nothing_waits_for_a_step"],
+                     "Arca.Props.C01.all_steps_completed_nothing_waits_for_a_step",
+                     "Arca.Props.C01.quiescent_run_has_verdict", "Arca.Props.C01.quiescent_stmt",
+                     "Arca.Props.C01.quiescent_hypotheses_needed"],
         "pins": RUNLOOP_PINS,
         "streams": [S_loop(mon_c01_loop), S_loop(mon_c01_loop, fanin=True), S_engine(M.mon_c01_engine), S_prompt("C01"),
                     S_foreach_close(M.mon_c01_engine), S_foreach(M.mon_c01_engine),
@@ -163,7 +165,11 @@ PROPS = {
     "C03": {
         "module": "Arca.Props.C03",
         "theorems": ["Arca.Props.C03.result_sound", "Arca.Props.C03.result_is_the_output",
-                     "Arca.Props.C03.no_output_reported_when_last_output_fails"],
+                     "Arca.Props.C03.no_output_reported_when_last_output_fails",
+                     "Arca.Props.C03.producible_output_is_returned", "Arca.Props.C03.no_producible_output_gives_error",
+                     "Arca.Props.C03.nothing_producible_gives_error", "Arca.Props.C03.producible_stmt",
+                     "Arca.Props.C03.no_output_stmt", "Arca.Props.C03.ready_empty_stmt",
+                     "Arca.Props.C03.completeness_hypotheses_needed"],
         "pins": RUNLOOP_PINS + RESOLVE_PINS,
         "streams": [S_loop(), S_engine(M.both(M.mon_c03_engine, M.no_eval_failure("C03", "an error was returned although the expressions of a producible output evaluate")),
                                        n=(250, 2500), seed_off=7),
@@ -542,7 +548,8 @@ def run_check(pid, tier, seed):
             sample = None
             if len(chk.samples) < 3 and v in ("ok", "n/a"):
                 sample = st.get("sample", default_sample)(case)
-            chk.count(key, nontriv, sample, tags=[st["name"] + ":" + v] + case_tags(case))
+            chk.count(key, nontriv, sample, tags=[st["name"] + ":" + v] + case_tags(case) +
+                      (["completeness-hyps:" + verdict["completeness"]] if (verdict or {}).get("completeness") else []))
             if v in ("ok", "diff", "n/a"):
                 chk.traces += 1
             if st.get("monitor") and "skip" not in case:
